@@ -655,6 +655,10 @@ func (vc *VC) copyElems(fr *Frame, st *State, dbase, doff, sbase, soff, n Term, 
 
 func nativeMods(name string) ([]string, bool) {
 	switch {
+	case name == "(*sync.Map).Load":
+		return nil, true
+	case name == "(*sync.Map).Store", name == "(*sync.Map).LoadOrStore", name == "(*sync.Map).Delete", name == "(*sync.Map).LoadAndDelete":
+		return []string{"SM_has", "SM_val"}, true
 	case strings.HasPrefix(name, "sync/atomic.Load"):
 		return nil, true
 	case strings.HasPrefix(name, "sync/atomic.Store"), strings.HasPrefix(name, "sync/atomic.Add"),
@@ -724,6 +728,28 @@ func (vc *VC) guaranteeObl(fr *Frame, st *State, addr Term, ty types.Type, cur, 
 			for _, p := range vc.fn.Params {
 				o.Evals = append(o.Evals, NamedTerm{p.Name(), vc.top.vals[p]})
 			}
+		}
+	}
+}
+
+var smHasSort = ArraySort(SPtr, ArraySort(SIface, SBool))
+var smValSort = ArraySort(SPtr, ArraySort(SIface, SIface))
+
+// guaranteeMapObl: every write to a sync.Map entry by a `concurrent` function satisfies the guarantee clauses, judged
+// against the entry as it is at the instant of the write.
+func (vc *VC) guaranteeMapObl(fr *Frame, st *State, present, cur, nw Term, cond Term, pos token.Pos) {
+	if !vc.concurrent {
+		return
+	}
+	anyT := types.NewInterfaceType(nil, nil)
+	for _, cl := range vc.top.con.Guarantees {
+		env := vc.newEnv(vc.top, st, vc.top.entry)
+		env.names["present"] = Bound{present, types.Typ[types.Bool]}
+		env.names["cur"] = Bound{cur, anyT}
+		env.names["new"] = Bound{nw, anyT}
+		g := vc.specBool(env, cl)
+		if o := vc.addObl(fr, st, "guarantee", cl.Label, Implies(cond, g), cl, pos); o != nil {
+			o.Evals = append(o.Evals, NamedTerm{"present", present})
 		}
 	}
 }
@@ -849,6 +875,62 @@ func (vc *VC) nativeModel(fr *Frame, st *State, instr *ssa.Call, c *ssa.CallComm
 			return true
 		}
 		return false
+	case strings.HasPrefix(name, "(*sync.Map)."):
+		// the contents of a sync.Map are ghost state per (map, key): SM_has / SM_val. In a `concurrent` function the
+		// entry is havocked - constrained only by the contract's rely clauses - immediately before every operation
+		// on it, and every write is an obligation of the guarantee clauses (`present`, `cur`: the entry at the instant
+		// of the write; `new`: the value written). LoadOrStore is one atomic step, Load followed by Store is two.
+		op := strings.TrimPrefix(name, "(*sync.Map).")
+		switch op {
+		case "Load", "Store", "LoadOrStore", "Delete", "LoadAndDelete":
+		default:
+			return false
+		}
+		m, key := args[0], args[1]
+		vc.nilCheck(fr, st, c.Args[0], m, pos, "syncmap")
+		anyT := types.NewInterfaceType(nil, nil)
+		hasArr := vc.get(st, "SM_has", smHasSort)
+		valArr := vc.get(st, "SM_val", smValSort)
+		if vc.concurrent {
+			before := st.clone()
+			h := vc.q.Fresh("interf$has", SBool)
+			v := vc.q.Fresh("interf$val", SIface)
+			hasArr = vc.q.Define(fr.prefix+"$smhas", Store(hasArr, m, Store(Select(hasArr, m), key, h)))
+			valArr = vc.q.Define(fr.prefix+"$smval", Store(valArr, m, Store(Select(valArr, m), key, v)))
+			vc.set(st, "SM_has", hasArr)
+			vc.set(st, "SM_val", valArr)
+			vc.assumeRelies(st, before)
+		}
+		curHas := vc.q.Define(fr.prefix+"$smpresent", Select(Select(hasArr, m), key))
+		curVal := vc.q.Define(fr.prefix+"$smcur", Select(Select(valArr, m), key))
+		vc.q.Assert(Implies(st.reach, vc.wfAssume(st, curVal, anyT, 0)))
+		write := func(has, val Term) {
+			vc.set(st, "SM_has", vc.q.Define(fr.prefix+"$smhas", Store(hasArr, m, Store(Select(hasArr, m), key, has))))
+			vc.set(st, "SM_val", vc.q.Define(fr.prefix+"$smval", Store(valArr, m, Store(Select(valArr, m), key, val))))
+		}
+		nilI := vc.zero(anyT)
+		switch op {
+		case "Load":
+			vc.setResults(fr, instr, []Term{Ite(curHas, curVal, nilI), curHas})
+		case "Store":
+			vc.guaranteeMapObl(fr, st, curHas, curVal, args[2], True, pos)
+			write(True, args[2])
+			vc.setResults(fr, instr, nil)
+		case "LoadOrStore":
+			vc.guaranteeMapObl(fr, st, curHas, curVal, args[2], Not(curHas), pos)
+			write(True, Ite(curHas, curVal, args[2]))
+			vc.setResults(fr, instr, []Term{Ite(curHas, curVal, args[2]), curHas})
+		case "Delete":
+			vc.guaranteeMapObl(fr, st, curHas, curVal, nilI, curHas, pos)
+			write(False, nilI)
+			vc.setResults(fr, instr, nil)
+		case "LoadAndDelete":
+			vc.guaranteeMapObl(fr, st, curHas, curVal, nilI, curHas, pos)
+			write(False, nilI)
+			vc.setResults(fr, instr, []Term{Ite(curHas, curVal, nilI), curHas})
+		}
+		vc.assumed["contents of sync.Map values are ghost state per key (Load/Store/LoadOrStore/Delete modelled; Range is not)"] = true
+		return true
 	case name == "(*sync.Cond).Wait":
 		// releases the lock: everything shared may change, constrained only by the stated rely
 		before := st.clone()
@@ -897,7 +979,13 @@ func (vc *VC) assumeRelies(st, before *State) {
 
 // callAsserts checks the caller's `callsite <callee> asserts ...` clauses for this call.
 func (vc *VC) callAsserts(fr *Frame, st *State, c *ssa.CallCommon, args []Term, pos token.Pos) {
-	if fr.con == nil || len(fr.con.CallAsserts) == 0 {
+	// the clauses of the function under verification also bind to calls made by the callees inlined into it (a helper
+	// extracted from the function takes its call sites along); they are evaluated in the scope of the function itself
+	scope := fr
+	if fr.con == nil && vc.top != nil && fr != vc.top {
+		scope = vc.top
+	}
+	if scope.con == nil || len(scope.con.CallAsserts) == 0 {
 		return
 	}
 	var name, qname string
@@ -933,12 +1021,12 @@ func (vc *VC) callAsserts(fr *Frame, st *State, c *ssa.CallCommon, args []Term, 
 	for i := 0; i < sig.Params().Len(); i++ {
 		params = append(params, sig.Params().At(i))
 	}
-	for _, ca := range fr.con.CallAsserts {
+	for _, ca := range scope.con.CallAsserts {
 		if ca.Callee != name && (qname == "" || ca.Callee != qname) {
 			continue
 		}
-		env := vc.newEnv(fr, st, fr.entry)
-		env.at = fr.curBlock
+		env := vc.newEnv(scope, st, scope.entry)
+		env.at = scope.curBlock
 		off := 0
 		if recv != nil && !c.IsInvoke() {
 			env.names["recv"] = Bound{args[0], recv.Type()}
